@@ -41,6 +41,43 @@ class CheckRotationValid(Contract):
         yield 'R_entries_bounded', conj(*[absle(Re[i][j], 1) for i in range(3) for j in range(3)])
         yield 'E_small', conj(*[absle(entries(Em)[i][j], EPS_VALID) for i in range(3) for j in range(3)])
 
+    def lemmas(self, R, Em):
+        # interval bounds of the monomials of (R+E)'(R+E) - I and det(R+E) - det R that contain an entry of E:
+        # each is a small non-linear fact; with them the two allclose tests are linear arithmetic over monomials
+        import itertools
+        Re, Ee = entries(R), entries(Em)
+        seen = set()
+
+        def lem(tag, term, bound):
+            if tag in seen:
+                return None
+            seen.add(tag)
+            return ('bound_' + tag, absle(term, bound))
+        for k_ in range(3):
+            for i in range(3):
+                for j in range(3):
+                    out = lem('R%d%d_E%d%d' % (k_, i, k_, j), Re[k_][i] * Ee[k_][j], EPS_VALID)
+                    if out:
+                        yield out
+                    if i <= j:
+                        out = lem('E%d%d_E%d%d' % (k_, i, k_, j), Ee[k_][i] * Ee[k_][j], EPS_VALID * EPS_VALID)
+                        if out:
+                            yield out
+        # pair products of entries in different rows and columns (the 2x2 minors' monomials), then the triples
+        for perm in itertools.permutations(range(3)):
+            for mask in itertools.product((0, 1), repeat=3):
+                if not any(mask):
+                    continue
+                f = [(Ee if mask[i] else Re)[i][perm[i]] for i in range(3)]
+                tags = ['%s%d%d' % ('E' if mask[i] else 'R', i, perm[i]) for i in range(3)]
+                b01 = (EPS_VALID if mask[0] else 1) * (EPS_VALID if mask[1] else 1)
+                out = lem('_'.join(tags[:2]), f[0] * f[1], b01)
+                if out:
+                    yield out
+                out = lem('_'.join(tags), f[0] * f[1] * f[2], b01 * (EPS_VALID if mask[2] else 1))
+                if out:
+                    yield out
+
     def actuals(self, R, Em):
         U = madd(R, Em)
         if symbolic_mode():
